@@ -171,3 +171,14 @@ package resharing
 //@   loop 0 invariant forall k in 0..$iter :: (k != i ==> (round.save.PaillierPKs[k] != nil && round.save.PaillierPKs[k].N != nil))
 //@   loop 1 invariant rsNew(round.ReSharingParameters) && round.started && sent(round.end) == old(sent(round.end)) && len(round.save.PaillierPKs) == rsNewN(round) && len(ContextI) <= 4104
 //@   loop 1 invariant forall k in 0..rsNewN(round) :: (k != i ==> (round.save.PaillierPKs[k] != nil && round.save.PaillierPKs[k].N != nil))
+
+//@ define rs1full(m) = (!isnil(m) && istype(msgcontent(m), "*ecdsa/resharing.DGRound1Message") && cast(msgcontent(m), "*ecdsa/resharing.DGRound1Message") != nil)
+//@ func (*round2).Start
+//@   props C06 C05 C04
+//@   requires round != nil && round.round1 != nil && round.round1.base != nil && ecRsWF(round) && ecRsIdx(round)
+//@   requires [round-1-complete] rsNew(round.ReSharingParameters) ==> (rsOldN(round) >= 1 && (forall j in 0..rsOldN(round) :: rs1full(round.temp.dgRound1Messages[j])) && len(cast(msgcontent(round.temp.dgRound1Messages[0]), "*ecdsa/resharing.DGRound1Message").Ssid) <= 4096)
+//@   requires [save-data-sized-for-the-new-committee] rsNew(round.ReSharingParameters) ==> (len(round.save.NTildej) == rsNewN(round) && len(round.save.H1j) == rsNewN(round) && len(round.save.H2j) == rsNewN(round) && len(round.save.PaillierPKs) == rsNewN(round))
+//@   requires [own-pre-parameters-honest] wfPreProof(round.save.LocalPreParams) ==> honestPre(round.save.LocalPreParams)
+//@   modifies *
+//@   ensures [C04.old-share-intact-before-the-final-round] ecShareIntact(round)
+//@   loop 0 invariant rsNew(round.ReSharingParameters) && round.started && ecShareIntact(round)
